@@ -106,6 +106,9 @@ def b_implies(a, b):
     return b_or(b_not(a), b)
 
 
+BV_MODE = [None]      # width of the contract being verified when it is in bit-vector mode (set by the engine)
+
+
 def ite(c, a, b):
     """if-then-else over scalars (c: python bool or z3 Bool)."""
     if isinstance(c, bool):
@@ -124,6 +127,8 @@ def ite(c, a, b):
     if k == 'py':
         if isinstance(a2, float) or isinstance(b2, float):
             return z3.If(c, to_real_term(a2), to_real_term(b2))
+        if BV_MODE[0] and all(isinstance(x, int) and 0 <= x < 2 ** (BV_MODE[0] - 1) for x in (a2, b2)):
+            return z3.If(c, z3.BitVecVal(a2, BV_MODE[0]), z3.BitVecVal(b2, BV_MODE[0]))     # machine-integer contracts
         return z3.If(c, to_int_term(a2), to_int_term(b2))
     if k == 'int' and z3.is_add(a2) and a2.num_args() == 2:
         # ite(c, b + k, b)  ==>  b + ite(c, k, 0): keeps accumulations as sums of independent terms
